@@ -285,7 +285,7 @@ def main():
         kinds[c.kind] = kinds.get(c.kind, 0) + 1
         for name, _ in backends:
             o = outs[name][i]
-            if model_outs:
+            if model_outs and not (c.meta and isinstance(c.meta, dict) and c.meta.get("impl_only")):
                 m = model_outs[name][i]
                 if m != o:
                     disagreements.append(dict(line=c.line, backend=name, impl=o, model=m, kind=c.kind))
